@@ -607,7 +607,10 @@ class C15(CoreCheck):
         g = core_gen.Gen(rng, rng.choice(["timer", "task", "event", "mixed"]))
         g.nf = 1
         g.nr = 0
-        g.rel = lambda: rng.choice([0, 1000000, 1000000, 5000000, 5000000, 20000000, 1000000000])
+        # no timer that is due at the moment it is registered: under epoll-timerfd the loop may dispatch a still-ready
+        # descriptor once more before it runs such a timer (run_timers is only set when the wait timed out), the other
+        # methods run it first -- both orders satisfy C04, so such programs are not order-independent
+        g.rel = lambda: rng.choice([1000000, 1000000, 5000000, 5000000, 20000000, 1000000000])
         old_action = g.action
 
         def action(ctx):
